@@ -426,8 +426,18 @@ func (b Builder) FitIntSize(n Expr) Expr {
 	typ := prog.Int()
 	if prog.SizeOf(n.Type) != prog.SizeOf(typ) {
 		srcType := n.Type
+		impl := castInt(b, n.impl, srcType, typ)
+		if prog.SizeOf(srcType) > prog.SizeOf(typ) {
+			// A bound wider than int (64-bit on a 32-bit target) must not wrap
+			// into range when it is narrowed. A value that does not survive the
+			// round trip is out of range for every slice, string and make, so
+			// pass -1 and let the runtime check that follows reject it.
+			back := llvm.CreateSExt(b.impl, impl, srcType.ll)
+			same := llvm.CreateICmp(b.impl, llvm.IntEQ, back, n.impl)
+			impl = llvm.CreateSelect(b.impl, same, impl, llvm.ConstAllOnes(typ.ll))
+		}
 		n.Type = typ
-		n.impl = castInt(b, n.impl, srcType, typ)
+		n.impl = impl
 	}
 	return n
 }
